@@ -1449,6 +1449,20 @@ fn many_distinct_tokens(ctx: &mut Ctx) {
     if ctx.take() {
         distinct_tokens_case(ctx, Algorithm::Patience, &req, &old, &new);
     }
+    // (b2) ids that WRAP onto the first tokens: old = N distinct lines, new = the same with its first three lines replaced by
+    // fresh ones, for N just below / at / above 2^8 and 2^16 -- the fresh tokens are numbered N, N+1, N+2, and in a narrower
+    // integer the last of them IS the number of old's first line, which sits right opposite it
+    for n in [254usize, 255, 256, 257, 65_533, 65_534, 65_535, 65_536] {
+        if !ctx.take() {
+            continue;
+        }
+        let old: String = (0..n).map(|i| format!("l{}\n", i)).collect();
+        let new: String = ["A\n", "B\n", "C\n"].iter().map(|s| s.to_string()).chain((3..n).map(|i| format!("l{}\n", i))).collect();
+        for alg in [Algorithm::Myers, Algorithm::Patience] {
+            let req = format!("text lines str {} - - | <{} distinct lines> | <the same with the first three lines replaced by fresh ones> | - | -", alg_name(alg), n);
+            distinct_tokens_case(ctx, alg, &req, &old, &new);
+        }
+    }
     // (c) a BIRTHDAY case: 400 000 distinct tokens per side, each of them an anchor that decides how its block is aligned
     // (blocks `S_i U_i r r r` against `S_i r r r U_i`, as in the determinism suite). If tokens are identified by
     // anything narrower than the tokens themselves -- a 32-bit hash, a truncated fingerprint -- some two of them almost
@@ -1495,6 +1509,8 @@ fn distinct_tokens_case(ctx: &mut Ctx, alg: Algorithm, req: &str, old: &str, new
         Ok((ops, direct, bad_equal)) => {
             if bad_equal {
                 ctx.violation("C14", req, "an Equal op covers tokens that are not equal (two items got one number)".to_string());
+                ctx.violation("C04", req, "an Equal op covers tokens that are not equal: the changes do not reconstruct the new text".to_string());
+                ctx.violation("C02", req, "an Equal op covers tokens that are not equal".to_string());
             }
             if ops != direct {
                 ctx.violation("C14", req, format!("ops differ from capture_diff_slices on the token slices ({} vs {} ops)", ops.len(), direct.len()));
